@@ -160,7 +160,8 @@ theorem sload_abs (db : Db) (s s' : JState) (a : Addr) (k v : Nat) (cold : Bool)
 /-- SLOAD: value and cold flag are those of the abstract slot -/
 theorem sload_agrees (he : HostEnv) (w w' : World) (a k : Nat) (resp : Interp.HostResp)
     (h : answer he w (.sload a k) = .ok (resp, w')) :
-    resp.word = ((absAcct w.db w.js a).slot k).present ∧ resp.isCold = !((absAcct w.db w.js a).slot k).warm := by
+    resp.word = ((absAcct w.db w.js a).slot k).present ∧ resp.isCold = !((absAcct w.db w.js a).slot k).warm ∧
+    resp.ok = true := by
   simp only [answer, bind, Except.bind] at h
   cases hl : Journal.sload w.db w.js a k with
   | none => rw [hl] at h; simp [ofOpt] at h
@@ -174,7 +175,7 @@ theorem sload_agrees (he : HostEnv) (w w' : World) (a k : Nat) (resp : Interp.Ho
     | some acc =>
       obtain ⟨hv, hc⟩ := sload_abs w.db w.js js a k v cold acc hacc hl
       rw [← h1]
-      exact ⟨hv, hc⟩
+      exact ⟨hv, hc, rfl⟩
 
 /-- TLOAD: the transient value (an absent entry reads as zero) -/
 theorem tload_agrees (he : HostEnv) (w w' : World) (a k : Nat) (resp : Interp.HostResp)
